@@ -51,10 +51,9 @@ pub fn judge(e: &Expect, got: &Val) -> Judged {
     match (e, got) {
         (Expect::Skip(_), _) => Judged { ok: true, ratio: None, expected: "skip".into() },
         (Expect::NoPanic, Val::F(_)) => Judged { ok: true, ratio: None, expected: "any value".into() },
-        (Expect::PanicZeroVariance, Val::Panic(m)) => {
-            Judged { ok: m.contains("assertion") && m.contains("left != right"), ratio: None, expected: "assert_ne!(variance, 0.) panic".into() }
-        }
-        (Expect::PanicZeroVariance, Val::F(_)) => Judged { ok: false, ratio: None, expected: "assert_ne!(variance, 0.) panic".into() },
+        // the documented exception: the statement allows this call to panic on zero variance; it
+        // does not demand the panic, nor a particular message
+        (Expect::PanicZeroVariance, _) => Judged { ok: true, ratio: None, expected: "the documented zero-variance assertion (or any value)".into() },
         (_, Val::Panic(_)) => Judged { ok: false, ratio: None, expected: format!("{e:?} (no panic)") },
         (Expect::Nan, Val::F(g)) => Judged { ok: g.is_nan(), ratio: None, expected: "NaN".into() },
         (Expect::Exactly(x), Val::F(g)) => Judged { ok: *g == *x, ratio: None, expected: format!("exactly {x:?}") },
